@@ -95,13 +95,13 @@ Fixpoint iterate (und : bool) (n k : nat) (R : mat Z) (s : list Z)
     end
   end.
 
+(* `if n < 4: return R, 0` (a swap needs four distinct nodes), then the loop *)
 Definition randmio_signed (und : bool) (n : nat) (R : mat Z) (itr : nat) (s : list Z) :=
-  iterate und n (n_iter und n itr) R s.
+  if (n <? 4)%nat then (R, s, []) else iterate und n (n_iter und n itr) R s.
 
-(* does the run end because pick_four_unique_nodes_quickly never returns?  In the code that is the
-   unbounded recursion of the retry (RecursionError): certain for n <= 3 as soon as one iteration is
-   made (pick4_needs_4), impossible on a recorded stream of a run that returned.  [iterate] itself is
-   total (it returns the current state); this flag tells the two situations apart. *)
+(* does the recorded stream end while pick_four_unique_nodes_quickly is still retrying?  On the stream of a run that
+   returned this never happens; [iterate] itself is total (it returns the current state) and this flag tells the two
+   situations apart (model-level "out of fuel"; for n >= 4 the code's retry ends with probability 1). *)
 Fixpoint runs_out (und : bool) (n k : nat) (R : mat Z) (s : list Z) : bool :=
   match k with
   | O => false
@@ -112,11 +112,13 @@ Fixpoint runs_out (und : bool) (n k : nat) (R : mat Z) (s : list Z) : bool :=
     | Swapped R' _ s' => runs_out und n k' R' s'
     end
   end.
+Definition randmio_runs_out (und : bool) (n : nat) (R : mat Z) (itr : nat) (s : list Z) : bool :=
+  (negb (n <? 4)%nat && runs_out und n (n_iter und n itr) R s)%bool.
 
-(* the routine as the caller sees it: None = the call does not return (RecursionError) *)
+(* the routine as the caller sees it: None = the recorded draws do not suffice *)
 Definition randmio_signed_ret (und : bool) (n : nat) (R : mat Z) (itr : nat) (s : list Z)
   : option (mat Z * list Z * list (quad * mat Z)) :=
-  if runs_out und n (n_iter und n itr) R s then None else Some (randmio_signed und n R itr s).
+  if randmio_runs_out und n R itr s then None else Some (randmio_signed und n R itr s).
 
 (* ---------- quantities the property speaks about ---------- *)
 Definition rowsum (phi : Z -> Z) (R : mat Z) (n i : nat) : Z := sumn (fun j => phi (R i j)) n.
